@@ -38,53 +38,7 @@ def run(R):
     F = R.F
     # ---- callable destroyed exactly once -------------------------------------------------------------
     n = 0
-    from lib import dataflow
-    for q in ("dispenso::detail::invokeInline", "dispenso::detail::invokeSpill"):
-        for fn in F.functions(qname=q):
-            spill = q.endswith("Spill")
-            is_run = lambda e: e.get("k") == "call" and e.get("opcall") == "()"
-            is_dt = lambda e: (e.get("k") == "call" and e.get("dtorcall")) or e.get("k") == "pseudodtor"
-            is_fr = lambda e: is_call(e, "dispenso::deallocSmallBuffer")
-            runs = [(p, e) for p, e in fn.events() if is_run(e)]
-            n += 1
-            det = []
-            # counted on every path (a rewrite may duplicate the tail into both branches):
-            # (invocations, destructor calls, frees), each saturating at 2
-            def transfer(pos, ev, st):
-                r, d, f = st
-                if is_run(ev):
-                    if d or f:
-                        raise dataflow.Violation("functor invoked after it was destroyed / its storage freed")
-                    r = min(r + 1, 2)
-                elif is_dt(ev):
-                    if f:
-                        raise dataflow.Violation("functor destroyed after its storage was freed")
-                    d = min(d + 1, 2)
-                elif is_fr(ev):
-                    if not d:
-                        raise dataflow.Violation("spilled storage freed before the functor's destructor ran")
-                    f = min(f + 1, 2)
-                    if targ0(ev) != (fn.targv[0] if fn.targv else None):
-                        raise dataflow.Violation("spill freed with size class %s, allocated with %s" % (targ0(ev), fn.targv[0] if fn.targv else "?"))
-                return (r, d, f)
-            def at_exit(st):
-                r, d, f = st
-                if r > 1:
-                    return "functor can be invoked twice"
-                if d != 1:
-                    return "a path (e.g. run == false) destroys the functor %d times" % d
-                if spill and f != 1:
-                    return "spilled storage freed %d times on a path" % f
-                return None
-            vios, stats = dataflow.run(fn, (0, 0, 0), transfer, None, at_exit)
-            det += [v["msg"] for v in vios]
-            if not runs:
-                det.append("the functor is never invoked")
-            for rp, _ in runs:
-                if not any(pol and isinstance(strip_casts(at), dict) and strip_casts(at).get("name") == "run" for at, pol, b in fn.guard_atoms(rp)):
-                    det.append("functor invoked without testing 'run'")
-            ok = not det
-            R.ob("C11.callable-once", fn, fn.loc, ok, "; ".join(sorted(set(det))) or "run (if requested) then destroy%s, exactly once on every path" % (" then free" if spill else ""), sitekey=q.split("::")[-1], why=WHY)
+    n += callable_once(R, "C11.callable-once", WHY)
     for fn in F.fns:
         if re.search(r"FutureImpl(Small|Alloc)::runFunc$", fn.qname):
             rr = [(p, e) for p, e in fn.events() if e.get("k") == "call" and e.get("name") == "runToResult"]
@@ -266,3 +220,60 @@ def run(R):
                      sitekey="swap-remove:" + L[0].split(".")[-1].split(">")[-1], why="a filter that skips elements leaves pointers to objects that are destroyed right after it")
                 break
     R.need("C11.swap-remove", ns, 1, "swap-remove loops (Subgraph::removePredecessorDependencies)")
+
+
+def callable_once(R, inst, why):
+    """detail::invokeInline / invokeSpill: on every path the functor is invoked at most once and only
+    when asked (run == true), destroyed exactly once (also when run == false: cleanupNotRun), and the
+    spilled block is freed exactly once after the destructor, with its own size class. Shared by C11
+    and C39."""
+    F = R.F
+    n = 0
+    from lib import dataflow
+    for q in ("dispenso::detail::invokeInline", "dispenso::detail::invokeSpill"):
+        for fn in F.functions(qname=q):
+            spill = q.endswith("Spill")
+            is_run = lambda e: e.get("k") == "call" and e.get("opcall") == "()"
+            is_dt = lambda e: (e.get("k") == "call" and e.get("dtorcall")) or e.get("k") == "pseudodtor"
+            is_fr = lambda e: is_call(e, "dispenso::deallocSmallBuffer")
+            runs = [(p, e) for p, e in fn.events() if is_run(e)]
+            n += 1
+            det = []
+            # counted on every path (a rewrite may duplicate the tail into both branches):
+            # (invocations, destructor calls, frees), each saturating at 2
+            def transfer(pos, ev, st):
+                r, d, f = st
+                if is_run(ev):
+                    if d or f:
+                        raise dataflow.Violation("functor invoked after it was destroyed / its storage freed")
+                    r = min(r + 1, 2)
+                elif is_dt(ev):
+                    if f:
+                        raise dataflow.Violation("functor destroyed after its storage was freed")
+                    d = min(d + 1, 2)
+                elif is_fr(ev):
+                    if not d:
+                        raise dataflow.Violation("spilled storage freed before the functor's destructor ran")
+                    f = min(f + 1, 2)
+                    if targ0(ev) != (fn.targv[0] if fn.targv else None):
+                        raise dataflow.Violation("spill freed with size class %s, allocated with %s" % (targ0(ev), fn.targv[0] if fn.targv else "?"))
+                return (r, d, f)
+            def at_exit(st):
+                r, d, f = st
+                if r > 1:
+                    return "functor can be invoked twice"
+                if d != 1:
+                    return "a path (e.g. run == false) destroys the functor %d times" % d
+                if spill and f != 1:
+                    return "spilled storage freed %d times on a path" % f
+                return None
+            vios, stats = dataflow.run(fn, (0, 0, 0), transfer, None, at_exit)
+            det += [v["msg"] for v in vios]
+            if not runs:
+                det.append("the functor is never invoked")
+            for rp, _ in runs:
+                if not any(pol and isinstance(strip_casts(at), dict) and strip_casts(at).get("name") == "run" for at, pol, b in fn.guard_atoms(rp)):
+                    det.append("functor invoked without testing 'run'")
+            ok = not det
+            R.ob(inst, fn, fn.loc, ok, "; ".join(sorted(set(det))) or "run (if requested) then destroy%s, exactly once on every path" % (" then free" if spill else ""), sitekey=q.split("::")[-1], why=why)
+    return n
